@@ -5,9 +5,19 @@
    roots so that siblings, parent/child pairs and unrelated tags all occur.
    Mix = "same": all ports have the same depth; "mixed": at least two depths; "any": both;
    "innersame"/"innermixed": the ports A, B of the inner combinator have the same / different depths;
-   "offdomain": some port carries two depths (explored and reported as `extra` only).          *)
+   "offdomain": some port carries two depths (explored and reported as `extra` only);
+   "innerbroadcast": (trees with an inner combinator over A, B and a sibling port C) every tag of C is
+   strictly DEEPER than the tags of the schemas the inner combinator emits, so that what the outer
+   combinator stores for its inner item - a schema, i.e. a mutable dictionary in the code, not an immutable
+   token - is the element that _add_to_list broadcasts from a shallow key to every deeper key (and pours
+   from a shallow key into a new deeper one).  With two or more tokens on C one inner schema is shared by
+   several keys of the outer combinator.  The inner schema of dot(A,B) is as deep as the deeper of A, B;
+   that of cartesian(A,B) one level deeper than A, B (which agree: different depths there are the known
+   finding), hence MaxDepth = 4 for dot(cartesian(A,B),C).
+   "innershared": the streams of "innerbroadcast" with at least two tokens on C.                     *)
 EXTENDS Combinator, Json
-CONSTANTS TreeKind, NP, MaxPer, MaxTotal, Mix, MinDepth
+CONSTANTS TreeKind, NP, MaxPer, MaxTotal, Mix, MinDepth,
+          MaxDepth     \* deepest tags of the universe (3; 4 where the sibling of an inner cartesian product must be deeper than its schemas)
 
 PortNames == <<"A", "B", "C">>
 Ports == {PortNames[i] : i \in 1..NP}
@@ -28,20 +38,29 @@ MCTree == CASE TreeKind = "dot" -> Dot("c", Leafs)
 U(d) == CASE d = 1 -> {<<0>>, <<1>>}
           [] d = 2 -> {<<0, 0>>, <<0, 1>>, <<1, 0>>}
           [] d = 3 -> {<<0, 0, 0>>, <<0, 0, 1>>, <<0, 1, 0>>}
+          [] d = 4 -> {<<0, 0, 0, 0>>, <<0, 0, 0, 1>>, <<0, 0, 1, 0>>}
 AllU == U(1) \cup U(2) \cup U(3)
 Small(S) == {X \in SUBSET S : X # {} /\ Cardinality(X) <= MaxPer}
-OneDepth == UNION {Small(U(d)) : d \in MinDepth..3}
+OneDepth == UNION {Small(U(d)) : d \in MinDepth..MaxDepth}
 DepthsOf(X) == {Len(t) : t \in X}
 Total(f) == LET RECURSIVE Sum(_)
                 Sum(S) == IF S = {} THEN 0 ELSE LET p == CHOOSE p \in S : TRUE IN Cardinality(f[p]) + Sum(S \ {p})
             IN Sum(Ports)
 OnDomain == {f \in [Ports -> OneDepth] : Total(f) <= MaxTotal}
+\* depth of the tags of the schemas emitted by the inner combinator over A, B (trees with an inner combinator)
+MaxOf(S) == CHOOSE x \in S : \A y \in S : y <= x
+InnerIsCart == TreeKind \in {"dotcart", "cartcart"}
+InnerDepth(f) == MaxOf(DepthsOf(f["A"]) \cup DepthsOf(f["B"])) + (IF InnerIsCart THEN 1 ELSE 0)
+InnerBroadcast == {f \in OnDomain : /\ InnerIsCart => DepthsOf(f["A"]) = DepthsOf(f["B"])
+                                     /\ \A d \in DepthsOf(f["C"]) : d > InnerDepth(f)}
 MCStreams ==
   CASE Mix = "same" -> {f \in OnDomain : Cardinality(UNION {DepthsOf(f[p]) : p \in Ports}) = 1}
     [] Mix = "mixed" -> {f \in OnDomain : Cardinality(UNION {DepthsOf(f[p]) : p \in Ports}) > 1}
     [] Mix = "any" -> OnDomain
     [] Mix = "innersame" -> {f \in OnDomain : DepthsOf(f["A"]) = DepthsOf(f["B"])}     \* the two ports of the inner combinator agree
     [] Mix = "innermixed" -> {f \in OnDomain : DepthsOf(f["A"]) # DepthsOf(f["B"])}
+    [] Mix = "innerbroadcast" -> InnerBroadcast
+    [] Mix = "innershared" -> {f \in InnerBroadcast : Cardinality(f["C"]) >= 2}
     [] Mix = "offdomain" -> {f \in [Ports -> Small(AllU)] : Total(f) <= MaxTotal /\ \E p \in Ports : Cardinality(DepthsOf(f[p])) > 1}
 
 \* generation: print every complete behaviour once (hist is part of the state)
